@@ -11,7 +11,7 @@ DESC = {
  "C05": "lengths 0..512 × 4 × 16 methods, frame sequences, every-byte corruption, histories ≤ 4, proto.Reader over frames; workers under an address-space limit",
  "C06": "all depth ≤ 1 + 1/11 of depth 2 compositions × every offset × 60 mutations, other block shapes, hostile / huge / missing type parameters; 2 decoders",
  "C07": "every prefix of every corpus encoding (LowCardinality also with 16/32/64-bit keys), 7 framings; large values; many-row blocks",
- "C08": "scripts ≤ 2 × 2 revisions × {1-byte, all 2-splits, gaps (also under a far deadline), idle inside packets, all 2^(n-1) for ≤ 16 bytes, close-with-last-bytes, clients with a past}; reader level",
+ "C08": "scripts ≤ 2 × 2 revisions × {1-byte, all 2-splits, gaps (also under a far deadline), idle inside packets, all 2^(n-1) for ≤ 16 bytes, close-with-last-bytes, clients with a past}, each with the next request (Ping) compared against the undivided delivery; reader level",
  "C09": "histories ≤ 3 over 12 callback behaviours × 3 initial sizes × 6 columns × 2 × 2",
  "C10": "scenarios × cancel modes (cancel, deadlines, cancel under a far / near deadline) × 2 read time-outs; silent, chatty and bytewise servers; client histories; stall; handshake; bound 1",
  "C11": "pool scenarios at bound 1 (incl. broken idle transport, hold past lifetime) + stale-release sweep over 130 cycle counts",
